@@ -97,6 +97,9 @@ def zernikeRadialFunc(n, m, r):
     n, m = int(n), abs(int(m))
     k = (n - m) // 2
     r = numpy.asarray(r, dtype=float)
+    if k < 0:
+        # no such polynomial (|m| > n): identically zero, as the series gave
+        return numpy.zeros(r.shape)
     R = (-1)**k * r**m * eval_jacobi(k, m, 0, 1 - 2 * r**2)
     return R
 
